@@ -44,6 +44,12 @@ def difficultyForPlasma (p : Nat) : Option Nat :=
 /-- `pow.CheckPoWNonce` with the hash prefix `h8` (first 8 bytes of SHA3(nonce ‖ dataHash)) as a parameter -/
 def checkPoWNonce (h8 : Bytes) (d : Nat) : Bool := greaterDifficulty h8 (targetBytes d)
 
+/-- A session of PoW checks as a node performs them one after the other (publish, gossip, momentum insertion, pool
+    rebuild; several blocks interleaved): each query is the hash prefix of (nonce ‖ data hash) and the claimed difficulty.
+    The checker has no memory: the answers are the pure predicate applied query by query, whatever was asked before
+    (in particular an earlier successful check of the same (data hash, nonce) under another difficulty). -/
+def checkSeq (qs : List (Bytes × Nat)) : List Bool := qs.map (fun q => checkPoWNonce q.1 q.2)
+
 end ZV.Pow
 
 namespace ZV.Pow
